@@ -135,4 +135,4 @@ def check(ctx):
             if rule in ("R02.1", "R02.2"): return super().ob(rule, key, ok, site, detail, nontrivial, undecided)
             return ok
     C02.check(Cap(ctx, "R08.4"))
-    ctx.floor("R08.1", 35); ctx.floor("R08.2", 4); ctx.floor("R08.3", 6); ctx.floor("R08.4", 14)
+    ctx.floor("R08.1", 35); ctx.floor("R08.2", 4); ctx.floor("R08.3", 6 if ctx.config == "lib" else 2); ctx.floor("R08.4", 14)
